@@ -30,23 +30,24 @@ Proof. exact built_means_no_diag. Qed.
 Print Assumptions C04_built_means_no_diag.
 
 (* The pass loop's only successful exit, for ALL pass functions and any number of passes: the last pass raised no
-   error, left nothing undefined and added no symbol. *)
+   error, left nothing undefined, changed no symbol's value and added no symbol. *)
 Theorem C04_done_means_clean :
-  forall state pass nodes_added no_segments create_default_segment next_pass finalize sort_undefined fuel c u pu pe c' fe,
-  PassLoopErr.loop state pass nodes_added no_segments create_default_segment next_pass finalize sort_undefined fuel c u pu pe
+  forall state pass nodes_added nothing_changed no_segments create_default_segment next_pass finalize sort_undefined fuel c u pu pe c' fe,
+  PassLoopErr.loop state pass nodes_added nothing_changed no_segments create_default_segment next_pass finalize sort_undefined fuel c u pu pe
     = Done state c' fe ->
-  exists c0 u0, pass c0 u0 = (c', [], []) /\ nodes_added c0 c' = false /\ no_segments c' = false /\ fe = finalize c'.
+  exists c0 u0, pass c0 u0 = (c', [], []) /\ nodes_added c0 c' = false /\ nothing_changed c' = true /\
+                no_segments c' = false /\ fe = finalize c'.
 Proof. exact done_means_clean. Qed.
 Print Assumptions C04_done_means_clean.
 
 (* Hence a fault that raises an error in every pass in which it is executed never builds: codegen ends with a
    non-empty diagnostics list. *)
 Theorem C04_fault_never_builds :
-  forall state pass nodes_added no_segments create_default_segment next_pass finalize sort_undefined,
+  forall state pass nodes_added nothing_changed no_segments create_default_segment next_pass finalize sort_undefined,
   (forall l, Permutation (sort_undefined l) l) ->
   (forall c u, snd (pass c u) <> []) ->
   forall fuel c u pu pe, exists c' ds,
-    PassLoopErr.loop state pass nodes_added no_segments create_default_segment next_pass finalize sort_undefined fuel c u pu pe
+    PassLoopErr.loop state pass nodes_added nothing_changed no_segments create_default_segment next_pass finalize sort_undefined fuel c u pu pe
       = PassLoopErr.Failed state c' ds /\ ds <> [].
 Proof. exact always_error_never_builds. Qed.
 Print Assumptions C04_fault_never_builds.
@@ -54,12 +55,12 @@ Print Assumptions C04_fault_never_builds.
 (* The truly-undefined rule: the same non-empty undefined set after two consecutive error-free passes ends the build
    with one `unknown identifier` diagnostic per item, each labelled with the span recorded at the item's USAGE. *)
 Theorem C04_truly_undefined_reported :
-  forall state pass nodes_added no_segments create_default_segment next_pass finalize sort_undefined,
+  forall state pass nodes_added nothing_changed no_segments create_default_segment next_pass finalize sort_undefined,
   (forall l, Permutation (sort_undefined l) l) ->
   forall f c u pu pe c1 undef1,
   pass c u = (c1, undef1, []) -> no_segments c1 = false -> undef1 <> [] -> uset_eqb undef1 pu = true ->
   exists ds,
-    PassLoopErr.loop state pass nodes_added no_segments create_default_segment next_pass finalize sort_undefined (S f) c u pu pe
+    PassLoopErr.loop state pass nodes_added nothing_changed no_segments create_default_segment next_pass finalize sort_undefined (S f) c u pu pe
       = PassLoopErr.Failed state c1 ds /\
     Permutation ds (map undefined_diag undef1) /\
     (forall d, In d ds -> exists x, In x undef1 /\ d_message d = UnknownIdentifier (u_id x) /\ d_label d = u_span x).
@@ -87,11 +88,11 @@ Print Assumptions C04_spans_in_file.
 
 (* non-vacuity: a pass function that is clean on its second call builds; one that always errs does not *)
 Example C04_example_done :
-  PassLoopErr.codegen nat (fun c _ => (S c, [], [])) (fun _ _ => false) (fun c => Nat.eqb c 1%nat) (fun c => c) (fun c => c)
+  PassLoopErr.codegen nat (fun c _ => (S c, [], [])) (fun _ _ => false) (fun _ => true) (fun c => Nat.eqb c 1%nat) (fun c => c) (fun c => c)
                       (fun _ => []) (fun l => l) 0%nat = Done nat 2%nat [].
 Proof. vm_compute. reflexivity. Qed.
 
 Example C04_example_bail :
-  PassLoopErr.codegen nat (fun c _ => (S c, [], [mkDiag (Other 1) None])) (fun _ _ => false) (fun c => Nat.eqb c 1%nat) (fun c => c)
+  PassLoopErr.codegen nat (fun c _ => (S c, [], [mkDiag (Other 1) None])) (fun _ _ => false) (fun _ => true) (fun c => Nat.eqb c 1%nat) (fun c => c)
                       (fun c => c) (fun _ => []) (fun l => l) 0%nat = PassLoopErr.Failed nat 2%nat [mkDiag (Other 1) None].
 Proof. vm_compute. reflexivity. Qed.
